@@ -1,0 +1,101 @@
+//go:build verif
+
+package dht
+
+import (
+	"context"
+	"time"
+
+	"github.com/anacrolix/dht/v2/int160"
+	"github.com/anacrolix/dht/v2/krpc"
+)
+
+// Verification hooks (build tag verif): read-only observation of the routing table and control of
+// the time sources, for model-based conformance checking. Nothing here is compiled into normal
+// builds and nothing changes the behaviour of existing code paths.
+
+type VerifNode struct {
+	Bucket     int
+	Id         krpc.ID
+	Addr       string
+	QAge, RAge int64 // milliseconds since the last query / response from the node, -1 = never
+	Failed     bool
+	Good, Bad  bool
+	Quest      bool
+}
+
+// Snapshot of the routing table as the server itself classifies it, taken under the server lock.
+func (s *Server) VerifTableSnapshot() (ret []VerifNode) {
+	s.mu.Lock()
+	defer s.mu.Unlock()
+	age := func(t time.Time) int64 {
+		if t.IsZero() {
+			return -1
+		}
+		return int64(time.Since(t) / time.Millisecond)
+	}
+	for bi := range s.table.buckets {
+		for n := range s.table.buckets[bi].nodes {
+			ret = append(ret, VerifNode{
+				Bucket: bi, Id: n.Id.AsByteArray(), Addr: n.Addr.String(),
+				QAge: age(n.lastGotQuery), RAge: age(n.lastGotResponse),
+				Failed: n.failedLastQuestionablePing,
+				Good:   s.IsGood(n), Bad: s.nodeIsBad(n), Quest: s.IsQuestionable(n),
+			})
+		}
+	}
+	return
+}
+
+// Size of the address index, which must stay in step with the buckets.
+func (s *Server) VerifAddrIndexSize() (n int) {
+	s.mu.Lock()
+	defer s.mu.Unlock()
+	for _, ids := range s.table.addrs {
+		n += len(ids)
+	}
+	return
+}
+
+// Equivalent to d elapsing for every routing table entry.
+func (s *Server) VerifAgeTable(d time.Duration) {
+	s.mu.Lock()
+	defer s.mu.Unlock()
+	s.table.forNodes(func(n *node) bool {
+		if !n.lastGotQuery.IsZero() {
+			n.lastGotQuery = n.lastGotQuery.Add(-d)
+		}
+		if !n.lastGotResponse.IsZero() {
+			n.lastGotResponse = n.lastGotResponse.Add(-d)
+		}
+		return true
+	})
+}
+
+// Replaces the token server's time source.
+func (s *Server) VerifSetTokenClock(now func() time.Time) {
+	s.mu.Lock()
+	defer s.mu.Unlock()
+	s.tokenServer.timeNow = now
+}
+
+// The ping table maintenance sends to questionable nodes.
+func (s *Server) VerifQuestionablePing(ctx context.Context, addr Addr, id krpc.ID) QueryResult {
+	return s.questionableNodePing(ctx, addr, id)
+}
+
+// Only for replaying small-model state graphs; never used for claims about K=8.
+func (s *Server) VerifSetTableK(k int) {
+	s.mu.Lock()
+	defer s.mu.Unlock()
+	s.table.k = k
+}
+
+func VerifBucketIndex(root, id int160.T) int {
+	t := table{rootID: root}
+	return t.bucketIndex(id)
+}
+
+func VerifRandomIdInBucket(root int160.T, bucket int) int160.T {
+	return randomIdInBucket(root, bucket)
+}
